@@ -22,12 +22,24 @@ pub struct Case { pub lens: Vec<usize>, pub cuts: Vec<usize>, pub gap: u64, pub 
 /// PDU i: a fast-path bitmap update with one raw 32 bpp rectangle of `n` pixels in a row, dest_left = i
 /// `n` = pixels + 100 * variant: variant 1 puts a zero-length update (synchronize) in front of
 /// the bitmap update inside the same PDU, variant 2 uses the two-byte length form although the PDU is small
+/// variant 3: a slow-path data PDU the client ignores, 150 bytes long (MCS length in 128..255), travels in
+/// front of the bitmap PDU; variant 4: a pointer-position update precedes the bitmap update in the same
+/// PDU; variant 5: the rectangle has 4200 pixels (a PDU of more than 16384 bytes)
+/// the frames entry `i` of `lens` stands for (one bitmap PDU, for variant 3 preceded by a quiet PDU)
+fn frames_of(i: usize, n: usize) -> Vec<Vec<u8>> {
+    if n / 100 == 3 { let both = pdu(i, n); let q = quiet_pdu().len(); return vec![both[..q].to_vec(), both[q..].to_vec()]; }
+    vec![pdu(i, n)]
+}
+fn quiet_pdu() -> Vec<u8> { refsrv::mcs_sdin(1003, &refsrv::share_data(0x103ea, 0x26, &vec![0x5a; 150 - 18 - 6])) }
 fn pdu(i: usize, n: usize) -> Vec<u8> {
     let (variant, n) = (n / 100, (n % 100).max(1));
+    let n = if variant == 5 { 4200 } else { n };
     let r = Rect { l: i as u16, t: 0, r: (i + n - 1) as u16, b: 0, w: n as u16, h: 1, bpp: 32, flags: 0, data: vec![i as u8; 4 * n] };
     let mut payload = vec![];
     if variant == 1 { payload.extend(refsrv::fp_update(3, &[])); }
+    if variant == 4 { payload.extend(refsrv::fp_update(8, &[1, 0, 2, 0])); }
     payload.extend(refsrv::fp_bitmap_update(&[r]));
+    if variant == 3 { let mut v = quiet_pdu(); v.extend(refsrv::fast_path_frame(0, &payload)); return v; }
     if variant == 2 { let t = payload.len() + 3; let mut v = vec![0u8, 0x80 | (t >> 8) as u8, t as u8]; v.extend(payload); v } else { refsrv::fast_path_frame(0, &payload) }
 }
 fn end_bytes(mode: &str) -> Vec<u8> {
@@ -39,10 +51,11 @@ fn end_bytes(mode: &str) -> Vec<u8> {
     }
 }
 
-pub struct Outcome { pub silent: Vec<u16>, pub fin: Vec<u16>, pub exited: bool, pub status: String, pub lens: Vec<usize>, pub inputs_done: usize, pub inputs_asked: bool }
+pub struct Outcome { pub silent: Vec<u16>, pub fin: Vec<u16>, pub exited: bool, pub status: String, pub lens: Vec<usize>, pub quiet: Vec<usize>, pub inputs_done: usize, pub inputs_asked: bool }
 
 pub fn run(c: &Case) -> Outcome {
-    let pdus: Vec<Vec<u8>> = c.lens.iter().enumerate().map(|(i, n)| pdu(i, *n)).collect();
+    let mut pdus: Vec<Vec<u8>> = vec![]; let mut quiet: Vec<usize> = vec![];
+    for (i, n) in c.lens.iter().enumerate() { let fs = frames_of(i, *n); if fs.len() == 2 { quiet.push(pdus.len()); } pdus.extend(fs); }
     let lens: Vec<usize> = pdus.iter().map(|p| p.len()).collect();
     let mut stream: Vec<u8> = pdus.concat();
     let endb = end_bytes(&c.end);
@@ -64,7 +77,7 @@ pub fn run(c: &Case) -> Outcome {
     let fd = a.as_raw_fd() as usize;
     let rawlog = Arc::new(Mutex::new(vec![]));
     let th = std::thread::spawn(move || conn::serve(b, srv, vec![0; 16], rawlog));
-    let mut out = Outcome { silent: vec![], fin: vec![], exited: false, status: "ok".into(), lens, inputs_done: 0, inputs_asked: c.inputs };
+    let mut out = Outcome { silent: vec![], fin: vec![], exited: false, status: "ok".into(), lens, quiet, inputs_done: 0, inputs_asked: c.inputs };
     let mut con = Connector::new().screen(cfg.w, cfg.h).credentials(cfg.dom.clone(), cfg.user.clone(), cfg.pw.clone()).use_nla(false).layout(conn::layout_of(cfg.lay)).name(cfg.name.clone());
     let mut client = match con.connect(a) { Ok(c) => c, Err(e) => { out.status = format!("E@connect:{:?}", e); let _ = th.join(); return out; } };
     for i in 0..5 { if let Err(e) = client.read(|_| {}) { out.status = format!("E@read{}:{:?}", i, e); drop(client); let _ = th.join(); return out; } }
@@ -105,14 +118,14 @@ pub fn run(c: &Case) -> Outcome {
 
 fn show(v: &[u16]) -> String { if v.is_empty() { "-".into() } else { v.iter().map(|x| x.to_string()).collect::<Vec<_>>().join(".") } }
 
-pub fn line_of(c: &Case, lens: &[usize]) -> String {
-    format!("gui lens={} cuts={} gap={} end={} endpack={} inputs={} plens={}", c.lens.iter().map(|x| x.to_string()).collect::<Vec<_>>().join(","),
+pub fn line_of(c: &Case, lens: &[usize], quiet: &[usize]) -> String {
+    format!("gui lens={} cuts={} gap={} end={} endpack={} inputs={} plens={} quiet={}", c.lens.iter().map(|x| x.to_string()).collect::<Vec<_>>().join(","),
         if c.cuts.is_empty() { "-".into() } else { c.cuts.iter().map(|x| x.to_string()).collect::<Vec<_>>().join(",") }, c.gap, c.end, c.endpack as u8, c.inputs as u8,
-        lens.iter().map(|x| x.to_string()).collect::<Vec<_>>().join(","))
+        lens.iter().map(|x| x.to_string()).collect::<Vec<_>>().join(","), if quiet.is_empty() { "-".to_string() } else { quiet.iter().map(|x| x.to_string()).collect::<Vec<_>>().join(",") })
 }
 
 fn emit_outcome(em: &mut Emitter, c: &Case, o: Outcome) {
-    let line = line_of(c, &o.lens);
+    let line = line_of(c, &o.lens, &o.quiet);
     let inp = if !o.inputs_asked { "-" } else if o.inputs_done > 0 { "ok" } else { "blocked" };
     let out = if o.status == "ok" { format!("silent={} final={} exit={} in={}", show(&o.silent), show(&o.fin), if o.exited { "yes" } else { "no" }, inp) } else { o.status.clone() };
     let mut obs = Obs::new(out).nt(o.status == "ok").tag(Box::leak(c.end.clone().into_boxed_str()));
@@ -124,7 +137,7 @@ pub fn run_case(toks: &[&str], em: &mut Emitter) {
     let get = |k: &str| -> String { toks.iter().find(|x| x.starts_with(&format!("{}=", k))).map(|x| x[k.len() + 1..].to_string()).unwrap_or_default() };
     let list = |k: &str| -> Vec<usize> { get(k).split(',').filter_map(|x| x.parse().ok()).collect() };
     let c = Case { lens: list("lens"), cuts: list("cuts"), gap: get("gap").parse().unwrap_or(0), end: get("end"), endpack: get("endpack") == "1", inputs: get("inputs") == "1" };
-    watch_begin(&line_of(&c, &[]));
+    watch_begin(&line_of(&c, &[], &[]));
     let o = run(&c);
     emit_outcome(em, &c, o);
 }
@@ -137,8 +150,8 @@ pub fn generate(thorough: bool, seed: u64, part: (usize, usize), em: &mut Emitte
     for (ei, end) in ends.iter().enumerate() {
         for fam in 0..6 {
             let n = 1 + (fam + ei) % 3;
-            let lens: Vec<usize> = (0..n).map(|k| r.range(1, 6) as usize + 100 * ((fam + k + ei) % 3)).collect();
-            let plen: Vec<usize> = lens.iter().map(|k| pdu(0, *k).len()).collect();
+            let lens: Vec<usize> = (0..n).map(|k| r.range(1, 6) as usize + 100 * ((fam + k + 2 * ei) % 6)).collect();
+            let plen: Vec<usize> = lens.iter().flat_map(|k| frames_of(0, *k).into_iter().map(|f| f.len()).collect::<Vec<_>>()).collect();
             let bounds: Vec<usize> = plen.iter().scan(0, |a, x| { *a += x; Some(*a) }).collect();
             let (cuts, gap): (Vec<usize>, u64) = match fam {
                 0 => (bounds.clone(), 0),                                   // one PDU per record, back to back
@@ -158,7 +171,7 @@ pub fn generate(thorough: bool, seed: u64, part: (usize, usize), em: &mut Emitte
     let n = if thorough { 600 } else { 40 };
     for _ in 0..n {
         let k = r.range(1, 4) as usize;
-        let lens: Vec<usize> = (0..k).map(|_| r.range(1, 8) as usize + 100 * r.below(3) as usize).collect();
+        let lens: Vec<usize> = (0..k).map(|_| r.range(1, 8) as usize + 100 * r.below(6) as usize).collect();
         let total: usize = lens.iter().map(|x| pdu(0, *x).len()).sum();
         let nc = r.below(5) as usize;
         let cuts: Vec<usize> = (0..nc).map(|_| r.range(1, total as u64 - 1) as usize).collect();
@@ -168,7 +181,7 @@ pub fn generate(thorough: bool, seed: u64, part: (usize, usize), em: &mut Emitte
     // the cases are timing-bound, not CPU-bound: run them concurrently
     let width = 24;
     for chunk in mine.chunks(width) {
-        if let Some(c0) = chunk.first() { watch_begin(&line_of(c0, &[])); }
+        if let Some(c0) = chunk.first() { watch_begin(&line_of(c0, &[], &[])); }
         let hs: Vec<_> = chunk.iter().cloned().map(|c| std::thread::spawn(move || { let o = run(&c); (c, o) })).collect();
         let results: Vec<_> = hs.into_iter().filter_map(|h| h.join().ok()).collect();
         watch_end();
